@@ -67,6 +67,10 @@ def strategy(tier):
             vals = sorted(set(v for d in spec["inputs"] if d.get("obs") for pl in d["obs"] for row in pl for v in row if v is not None)) or [0.0]
             a, b = draw(st.sampled_from(vals)), draw(st.sampled_from(vals))
             opts["obs_range"] = [min(a, b), max(a, b)]
+        if draw(st.sampled_from([False, False, True])):
+            # -d / -tod / -t: selections that re-derive the per-file time indices
+            from .c11 import time_opts
+            opts.update(draw(time_opts(spec)))
         return {"spec": spec, "axes": axes, "alter": k, "delta": delta, "opts": opts}
     return s()
 
@@ -88,6 +92,8 @@ def check_api(case, ctx):
     ctx.label("inputs=%d" % n_in)
     if opts.get("obs_range"):
         ctx.label("obsrange")
+    if any(k in opts for k in ("dates", "tods", "times")):
+        ctx.label("time-selection")
     if spec.get("clim"):
         ctx.label("has_clim")
     if any(d.get("obs") is None for d in spec["inputs"]):
@@ -101,6 +107,9 @@ def check_api(case, ctx):
         ctx.fail("C01/dims/unexpected-exit", {"spec": spec}, "Data() exited although the inputs share times/leadtimes/locations")
         return
     if ds.empty:
+        if any(k in opts for k in ("dates", "tods", "times")):
+            ctx.label("empty_selection")      # what an empty selection must do is C03's subject
+            return
         ctx.fail("C01/dims/no-exit", {"spec": spec}, "model intersection is empty but Data() was built")
         return
     nontriv = is_nontrivial(spec, ds)
